@@ -182,6 +182,8 @@ struct Scenario {
     via_proxy: bool,
     /// Refused submissions on the same connection before the chain is built (1 = a refused
     /// `enqueue_call`, 2 = a chain whose first call is refused); they leave nothing behind.
+    /// 3 = a chain whose *second* link is refused: its first call stays enqueued (as the statement
+    /// of C02 demands), the application flushes it and receives its reply by hand.
     pre_refused: Vec<u8>,
     /// Drop the reply stream after this many items (chains only): the replies it has not taken
     /// stay on the connection and must come out of ordinary receives, in order, followed by the
@@ -293,7 +295,7 @@ fn gen_scenario(t: &mut Tape, borrowed: bool) -> Scenario {
     let mut pre_refused = Vec::new();
     if t.draw(4) == 3 {
         for _ in 0..1 + t.draw(2) {
-            pre_refused.push(1 + t.draw(2) as u8);
+            pre_refused.push(1 + t.draw(3) as u8);
         }
     }
     let abandon_after = if !via_proxy && !borrowed && t.draw(5) == 4 { Some(t.draw(owed.len() + 1)) } else { None };
@@ -607,7 +609,14 @@ impl Prop for Inst {
                 bytes.extend_from_slice(&o.frame());
                 bytes.push(0);
             }
-            w.push_seg(rd, &bytes, Some(Gate { pipe: wr, nuls: n_calls, counter: 0 }));
+            let n_prelude = sc.pre_refused.iter().filter(|k| **k == 3).count();
+            for j in 0..n_prelude {
+                // the reply to the call a refused `append` left behind, once that call was flushed
+                let mut b = Owed { service_error: false, error: false, unit_error: false, num: 800 + j as i64, text: format!("left{j}"), continues: None, wire: 0 }.frame();
+                b.push(0);
+                w.push_seg(rd, &b, Some(Gate { pipe: wr, nuls: j + 1, counter: 0 }));
+            }
+            w.push_seg(rd, &bytes, Some(Gate { pipe: wr, nuls: n_calls + n_prelude, counter: 0 }));
             w.step_cap = 50 * (bytes.len() as u64 + 300);
             (rd, wr)
         };
@@ -795,7 +804,36 @@ impl Prop for Inst {
                         }};
                     }
 
+                    let mut n_left = 0usize;
                     for kind in &sc2.pre_refused {
+                        if *kind == 3 {
+                            let first = match conn.chain_call::<MethOut, RepIn<'_>, ErrIn<'_>>(&call_for(800 + n_left, CallKind::Plain)) {
+                                Ok(c) => c,
+                                Err(e) => {
+                                    prog2.borrow_mut().fail = Some(("chain/refused".into(), format!("{e:?}")));
+                                    return;
+                                }
+                            };
+                            if first.append(&refused_call()).is_ok() {
+                                prog2.borrow_mut().fail = Some(("chain/refused-call-accepted".into(), "a call with a tuple map key was accepted as a chain link".into()));
+                                return;
+                            }
+                            world2.borrow_mut().stat("fault.serializer_refused_a_later_link_of_an_earlier_chain");
+                            // the first call is still enqueued: send it and take its reply by hand
+                            if let Err(e) = conn.flush().await {
+                                prog2.borrow_mut().fail = Some(("chain/send-failed".into(), format!("flush of the call left behind by a refused append: {e:?}")));
+                                return;
+                            }
+                            let r = conn.receive_reply::<RepIn<'_>, ErrIn<'_>>().await;
+                            let got = render_item(&r);
+                            let want = Owed { service_error: false, error: false, unit_error: false, num: 800 + n_left as i64, text: format!("left{n_left}"), continues: None, wire: 0 }.render();
+                            if got != want {
+                                prog2.borrow_mut().fail = Some((format!("{}/wrong-item", if borrowed { "C11" } else { "C06" }), format!("the reply to the call a refused append left behind: expected {want}, got {got}")));
+                                return;
+                            }
+                            n_left += 1;
+                            continue;
+                        }
                         let refused = if *kind == 1 {
                             conn.enqueue_call(&refused_call()).is_err()
                         } else {
@@ -882,15 +920,20 @@ impl Prop for Inst {
         }
         let w = world.borrow();
         // (1) one write, calls in chain order with the right flags
+        let n_prelude = sc.pre_refused.iter().filter(|k| **k == 3).count();
         let wl = &w.pipes[wr].write_lens;
-        if wl.len() != 1 {
-            return Err((format!("{id}/not-one-write"), format!("the chain reached the transport in {} writes", wl.len())));
+        if wl.len() != 1 + n_prelude {
+            return Err((format!("{id}/not-one-write"), format!("the chain reached the transport in {} writes", wl.len().saturating_sub(n_prelude))));
         }
         let log = &w.pipes[wr].log;
         if log.is_empty() {
             return Err((format!("{id}/wrong-calls-on-wire"), "empty write".into()));
         }
-        let frames: Vec<&[u8]> = log[..log.len() - 1].split(|b| *b == 0).collect();
+        let mut frames: Vec<&[u8]> = log[..log.len() - 1].split(|b| *b == 0).collect();
+        // (the calls left behind by refused appends went out before the chain)
+        if frames.len() >= n_prelude {
+            frames.drain(..n_prelude);
+        }
         if log.last() != Some(&0) || frames.len() != n_calls {
             return Err((format!("{id}/wrong-calls-on-wire"), format!("{} frames for {} calls", frames.len(), n_calls)));
         }
